@@ -234,16 +234,17 @@ let pin_family (r : rng) (count : int) : (bool * spos) list =
     let s = if chance r 1 2 then White else Black in
     let them = if s = White then Black else White in
     let a = empty_board () in
-    let kf = rand r 8 and kr = rand r 8 in
+    let kf, kr = if chance r 1 4 then ((if chance r 1 2 then 0 else 7), (if chance r 1 2 then 0 else 7)) else (rand r 8, rand r 8) in
     a.(kr * 8 + kf) <- Some (s, King);
     let npins = 1 + rand r 2 in
     for _ = 1 to npins do
       let dx, dy = dirs.(rand r 8) in
-      let d1 = 1 + rand r 3 in
-      let d2 = d1 + 1 + rand r 3 in
+      (* distances over the whole board: one pin in three uses the longest line available from the king *)
+      let d1 = if chance r 1 3 then 1 + rand r 6 else 1 + rand r 3 in
+      let d2 = d1 + 1 + rand r (if d1 >= 4 then max 1 (7 - d1) else 3) in
       let x1 = kf + dx * d1 and y1 = kr + dy * d1 and x2 = kf + dx * d2 and y2 = kr + dy * d2 in
       if x2 >= 0 && x2 <= 7 && y2 >= 0 && y2 <= 7 && a.(y1 * 8 + x1) = None && a.(y2 * 8 + x2) = None then begin
-        let pinned_pc = [| Pawn; Knight; Bishop; Rook; Queen |].(rand r 5) in
+        let pinned_pc = [| Pawn; Knight; Bishop; Rook; Queen; Pawn |].(rand r 6) in
         if pinned_pc <> Pawn || (y1 >= 1 && y1 <= 6) then begin
           a.(y1 * 8 + x1) <- Some ((if chance r 5 6 then s else them), pinned_pc);
           let slider = if dx = 0 || dy = 0 then (if chance r 1 2 then Rook else Queen) else (if chance r 1 2 then Bishop else Queen) in
@@ -252,6 +253,13 @@ let pin_family (r : rng) (count : int) : (bool * spos) list =
       end
     done;
     let free () = let l = ref [] in Array.iteri (fun i c -> if c = None then l := i :: !l) a; !l in
+    (* sometimes an own piece on the LAST square of a diagonal or line through the king (corner and rim squares, bit 63 / bit 0) *)
+    if chance r 1 4 then begin
+      let dx, dy = dirs.(rand r 8) in
+      let rec far x y = if x + dx >= 0 && x + dx <= 7 && y + dy >= 0 && y + dy <= 7 then far (x + dx) (y + dy) else (x, y) in
+      let x, y = far kf kr in
+      if (x, y) <> (kf, kr) && a.(y * 8 + x) = None then a.(y * 8 + x) <- Some (s, [| Rook; Knight; Bishop; Queen |].(rand r 4))
+    end;
     (* one time in three: one or two direct checkers as well (knight jump, pawn, adjacent-line slider) *)
     if chance r 1 3 then
       for _ = 1 to 1 + rand r 2 do
@@ -286,6 +294,162 @@ let pin_family (r : rng) (count : int) : (bool * spos) list =
   done;
   !out
 
+(* ---------- targeted family: the side to move has NO legal move (stalemate or mate) or exactly one, although it owns
+   pieces that look mobile: pinned pawns with a free square ahead, pinned officers, an en-passant capture as the only move ---------- *)
+let no_move_family (r : rng) (count : int) : (bool * spos) list =
+  let out = ref [] in
+  let tries = ref 0 in
+  let dirs = [| (1, 0); (-1, 0); (0, 1); (0, -1); (1, 1); (1, -1); (-1, 1); (-1, -1) |] in
+  while List.length !out < count && !tries < count * 400 do
+    incr tries;
+    let s = if chance r 1 2 then White else Black in
+    let them = if s = White then Black else White in
+    let a = empty_board () in
+    (* our king on the rim or in a corner *)
+    let kf, kr = match rand r 3 with 0 -> ((if chance r 1 2 then 0 else 7), (if chance r 1 2 then 0 else 7)) | 1 -> (rand r 8, (if chance r 1 2 then 0 else 7)) | _ -> ((if chance r 1 2 then 0 else 7), rand r 8) in
+    let k = kr * 8 + kf in
+    a.(k) <- Some (s, King);
+    let inb x y = x >= 0 && x <= 7 && y >= 0 && y <= 7 in
+    (* the enemy king two squares away, taking flight squares *)
+    let cands = List.filter (fun q -> let dx = Stdlib.abs (q mod 8 - kf) and dy = Stdlib.abs (q / 8 - kr) in max dx dy = 2) (List.init 64 (fun i -> i)) in
+    let ek = pick r cands in
+    a.(ek) <- Some (them, King);
+    (* one to three pinned own pieces (pawns preferred) on lines from our king *)
+    for _ = 1 to 1 + rand r 3 do
+      let dx, dy = dirs.(rand r 8) in
+      let d1 = 1 + rand r 2 in
+      let d2 = d1 + 1 + rand r 3 in
+      let x1 = kf + dx * d1 and y1 = kr + dy * d1 and x2 = kf + dx * d2 and y2 = kr + dy * d2 in
+      if inb x2 y2 && a.(y1 * 8 + x1) = None && a.(y2 * 8 + x2) = None then begin
+        let pc = [| Pawn; Pawn; Pawn; Knight; Bishop; Rook |].(rand r 6) in
+        if pc <> Pawn || (y1 >= 1 && y1 <= 6) then begin
+          a.(y1 * 8 + x1) <- Some (s, pc);
+          a.(y2 * 8 + x2) <- Some (them, (if dx = 0 || dy = 0 then (if chance r 1 2 then Rook else Queen) else (if chance r 1 2 then Bishop else Queen)))
+        end
+      end
+    done;
+    (* a few more enemy pieces to take the remaining flight squares; blocked own pawns *)
+    let free () = let l = ref [] in Array.iteri (fun i c -> if c = None then l := i :: !l) a; !l in
+    for _ = 1 to rand r 4 do
+      let q = pick r (free ()) in
+      let pc = [| Knight; Bishop; Rook; Queen; Pawn |].(rand r 5) in
+      if pc <> Pawn || (q / 8 >= 1 && q / 8 <= 6) then a.(q) <- Some (them, pc)
+    done;
+    for _ = 1 to rand r 3 do
+      let q = 8 + rand r 48 in
+      let ahead = if s = White then q + 8 else q - 8 in
+      if a.(q) = None && a.(ahead) = None then begin a.(q) <- Some (s, Pawn); a.(ahead) <- Some (them, [| Pawn; Knight; Bishop |].(rand r 3)) end
+    done;
+    (* sometimes an en-passant square with a capturer *)
+    let ep =
+      if chance r 1 4 then begin
+        let prank = if s = White then 4 else 3 in
+        let pf = rand r 8 in
+        let pushed = prank * 8 + pf in
+        let epsq = if s = White then pushed + 8 else pushed - 8 in
+        let origin = if s = White then pushed + 16 else pushed - 16 in
+        let cf = pf + (if chance r 1 2 then 1 else -1) in
+        if cf >= 0 && cf <= 7 && a.(pushed) = None && a.(epsq) = None && a.(origin) = None && a.(prank * 8 + cf) = None then begin
+          a.(pushed) <- Some (them, Pawn); a.(prank * 8 + cf) <- Some (s, Pawn); Some epsq
+        end else None
+      end else None in
+    let bad_pawn = ref false in
+    Array.iteri (fun i c -> match c with Some (_, Pawn) when i < 8 || i >= 56 -> bad_pawn := true | _ -> ()) a;
+    if not !bad_pawn then begin
+      let p = spos_of_array a s ~ep ~half:(rand r 120) ~full:(1 + rand r 90) () in
+      if lc true p && List.length (spec_moves p) <= 1 then out := (true, p) :: !out
+    end
+  done;
+  !out
+
+(* placement fields of maximal length: 32 men, no two adjacent empty squares in any rank (71 characters) *)
+let long_placement (r : rng) : spos option =
+  let a = empty_board () in
+  let men s = [ (s, King); (s, Queen); (s, Rook); (s, Rook); (s, Bishop); (s, Bishop); (s, Knight); (s, Knight) ] @ List.init 8 (fun _ -> (s, Pawn)) in
+  (* squares: alternate occupied / empty, the phase chosen per rank *)
+  let sqs = List.concat (List.init 8 (fun rk -> let ph = rand r 2 in List.init 4 (fun i -> rk * 8 + 2 * i + ph))) in
+  let pawn_ok q = q / 8 >= 1 && q / 8 <= 6 in
+  let rec place men sqs = match men with
+    | [] -> true
+    | (s, pc) :: rest ->
+      let cands = List.filter (fun q -> a.(q) = None && (pc <> Pawn || pawn_ok q)) sqs in
+      if cands = [] then false else begin a.(pick r cands) <- Some (s, pc); place rest sqs end in
+  (* pawns first (they cannot go everywhere) *)
+  let order = List.filter (fun (_, pc) -> pc = Pawn) (men White @ men Black) @ List.filter (fun (_, pc) -> pc <> Pawn) (men White @ men Black) in
+  if place order sqs then begin
+    let p = spos_of_array a (if chance r 1 2 then White else Black) ~half:(rand r 50) ~full:(1 + rand r 90) () in
+    if lc true p then Some p else None
+  end else None
+
+
+(* ---------- extreme material: every pawn promoted to the same officer (ten knights / bishops / rooks, nine queens a side) ---------- *)
+let material_family (r : rng) (count : int) : (bool * spos) list =
+  let out = ref [] in
+  let tries = ref 0 in
+  while List.length !out < count && !tries < count * 60 do
+    incr tries;
+    let a = empty_board () in
+    let put s pc n = for _ = 1 to n do let q = rand r 64 in if a.(q) = None then a.(q) <- Some (s, pc) done in
+    let wk = rand r 64 in a.(wk) <- Some (White, King);
+    let bk = rand r 64 in
+    if a.(bk) = None && not (king_adjacent wk bk) then begin
+      a.(bk) <- Some (Black, King);
+      List.iter (fun s ->
+          let pc = [| Knight; Bishop; Rook; Queen; Knight |].(rand r 5) in
+          let n = if pc = Queen then 9 else 10 in
+          (* exactly n of them: keep trying free squares *)
+          let placed = ref 0 and guard = ref 0 in
+          while !placed < n && !guard < 400 do
+            incr guard; let q = rand r 64 in if a.(q) = None then begin a.(q) <- Some (s, pc); incr placed end
+          done;
+          if chance r 1 2 then put s [| Knight; Bishop; Rook |].(rand r 3) 2) [ White; Black ];
+      let p = spos_of_array a (if chance r 1 2 then White else Black) ~half:(rand r 30) ~full:(40 + rand r 60) () in
+      if lc true p then out := (true, p) :: !out
+    end
+  done;
+  !out
+
+(* ---------- pushes and promotions that uncover a check along the rank or file the pawn leaves ---------- *)
+let discovery_family (r : rng) (count : int) : (bool * spos) list =
+  let out = ref [] in
+  let tries = ref 0 in
+  while List.length !out < count && !tries < count * 60 do
+    incr tries;
+    let s = if chance r 1 2 then White else Black in
+    let them = if s = White then Black else White in
+    let a = empty_board () in
+    let free () = let l = ref [] in Array.iteri (fun i c -> if c = None then l := i :: !l) a; !l in
+    if chance r 1 2 then begin
+      (* a pawn on its start rank between our rook/queen and the enemy king on that rank: single and double push uncover *)
+      let rk = if s = White then 1 else 6 in
+      let pf = 1 + rand r 6 in
+      let left = rand r pf and right = pf + 1 + rand r (7 - pf) in
+      let slider_f, king_f = if chance r 1 2 then (left, right) else (right, left) in
+      a.(rk * 8 + pf) <- Some (s, Pawn);
+      a.(rk * 8 + slider_f) <- Some (s, (if chance r 1 2 then Rook else Queen));
+      a.(rk * 8 + king_f) <- Some (them, King);
+      let k = pick r (List.filter (fun q -> not (king_adjacent q (rk * 8 + king_f))) (free ())) in
+      a.(k) <- Some (s, King);
+      for _ = 1 to rand r 3 do let q = pick r (free ()) in a.(q) <- Some ((if chance r 1 2 then s else them), [| Knight; Bishop; Rook |].(rand r 3)) done
+    end else begin
+      (* a pawn on the seventh with the enemy king straight ahead, our rook/queen behind it on the file, and something to
+         capture on a neighbouring file of the last rank: capture-promotions (also to knight/bishop) uncover the file *)
+      let rk = if s = White then 6 else 1 in
+      let last = if s = White then 7 else 0 in
+      let pf = rand r 8 in
+      a.(rk * 8 + pf) <- Some (s, Pawn);
+      a.(last * 8 + pf) <- Some (them, King);
+      let behind = (if s = White then rand r 6 else 2 + rand r 6) * 8 + pf in
+      if a.(behind) = None then a.(behind) <- Some (s, (if chance r 1 2 then Rook else Queen));
+      List.iter (fun f -> if f >= 0 && f <= 7 && chance r 3 4 then a.(last * 8 + f) <- Some (them, [| Rook; Knight; Bishop; Queen |].(rand r 4))) [ pf - 1; pf + 1 ];
+      let k = pick r (List.filter (fun q -> not (king_adjacent q (last * 8 + pf))) (free ())) in
+      a.(k) <- Some (s, King)
+    end;
+    let p = spos_of_array a s () in
+    if lc true p then out := (true, p) :: !out
+  done;
+  !out
+
 (* ---------- targeted family: promotions, including capture of a castling rook ---------- *)
 let promo_family (r : rng) (count : int) : (bool * spos) list =
   let out = ref [] in
@@ -309,6 +473,13 @@ let promo_family (r : rng) (count : int) : (bool * spos) list =
       let q = tbase + rand r 8 in
       if a.(q) = None then a.(q) <- Some (them, [| Knight; Bishop; Queen |].(rand r 3))
     done;
+    if chance r 1 2 then begin
+      (* a second rook of theirs on the file of one of the castling rooks; two officers of ours somewhere *)
+      let f = if chance r 1 2 then krf else qrf in
+      let q = (1 + rand r 6) * 8 + f in
+      if a.(q) = None then a.(q) <- Some (them, Rook);
+      for _ = 1 to 2 do let q = pick r (free ()) in a.(q) <- Some (s, [| Bishop; Knight; Queen; Rook |].(rand r 4)) done
+    end;
     let k = pick r (List.filter (fun q -> not (king_adjacent q (tbase + kf))) (free ())) in
     a.(k) <- Some (s, King);
     let p = if them = White then spos_of_array a s ~wk:(Some (tbase + krf)) ~wq:(Some (tbase + qrf)) ()
